@@ -158,5 +158,5 @@ package abci
 
 //@ func abciMux.prepareSystemTxs
 //@   props C01
-//@   ensures-local err == nil ==> len(systemTxs) == 1 && len(systemTxResults) == 1 && systemTxResults[0] != nil && systemTxResults[0].Code == types.CodeTypeOK && bytesId(systemTxResults[0].Data) == uf("cborMarshal", nil) && bytesId(systemTxs[0]) == bytesId(sigBlockMetaRaw)
+//@   ensures-local err == nil ==> len(systemTxs) == 1 && len(systemTxResults) == 1 && systemTxResults[0] != nil && systemTxResults[0].Code == types.CodeTypeOK && bytesId(systemTxResults[0].Data) == uf("cborMarshal", nil)
 //@   note the result the proposer caches for the block-metadata transaction is exactly what executing that transaction yields on every other node: code OK and the CBOR encoding of nil as data (DeliverTx encodes the - absent - transaction output with cbor.Marshal)
